@@ -811,6 +811,13 @@ impl Manager {
         //           TxUpdate Sender which it can use to send data updates to
         //           to the RxUpdate Receiver which is now held by the Link
         //           (stored in a LinkConnection object).
+
+        // GATES collects the gates of the file being loaded. If an earlier
+        // load failed after some links had been deserialised (serde error,
+        // roto script that does not compile) its gates are still there and
+        // would be taken for links of this file. Start from scratch.
+        GATES.with(|gates| gates.replace(Some(Default::default())));
+
         Config::from_bytes(file.bytes(), file.dir()).map_err(|err| {
             match file.path() {
                 Some(path) => error!("{}: {}", path.display(), err),
@@ -853,9 +860,37 @@ impl Manager {
         }
 
         // Drain the singleton static GATES contents to a local variable.
-        let gates = GATES
+        let mut gates = GATES
             .with(|gates| gates.replace(Some(Default::default())))
             .unwrap();
+
+        // Gates left in `pending_gates` by an earlier prepare() belong to a
+        // file that was never spawned; they must not make units of this
+        // file look used.
+        self.pending_gates.clear();
+
+        // Report every unresolved link and fail *before* any gate is moved,
+        // so that a failed load leaves nothing behind.
+        let mut unresolved = false;
+        for (name, load) in gates.iter_mut() {
+            if load.gate.is_some() && !config.units.units.contains_key(name)
+            {
+                for link in load.links.iter_mut() {
+                    link.resolve_config(file);
+                    error!(
+                        "{}",
+                        link.mark(format!(
+                            "unresolved link to unit '{}'",
+                            name
+                        ))
+                    );
+                }
+                unresolved = true;
+            }
+        }
+        if unresolved {
+            return Err(Terminate::error());
+        }
 
         // A Gate was created for each Link (e.g. for 'sources = ["a"]' and
         // 'upstream = "b"') but does the config file define units with
